@@ -71,13 +71,22 @@ const TWO40: f64 = 1099511627776.0; // 2^40, multiplication by it is exact in f6
 
 /// log2_bounds of every u8 / u16 value (the table-driven no_std estimator):
 /// lb <= log2(n) <= ub, decided exactly against floor/ceil(2^40 log2 n) (see tools/mklogtab.py)
-pub fn log2_u16(lo: u16, hi: u16, as_u8: bool) {
+pub fn log2_u16<const SPAN: usize>(lo: u16, as_u8: bool) {
     let n: u16 = nd::any();
-    nd::assume(n >= lo && n <= hi && n != 0);
+    nd::assume(n >= lo && (n as usize) < lo as usize + SPAN && n != 0);
     let (lb, ub) = if as_u8 { (n as u8).log2_bounds() } else { n.log2_bounds() };
     assert!(lb.is_finite() && ub.is_finite());
-    let f = LOG2_FLOOR[n as usize] as f64;
-    let c = LOG2_CEIL[n as usize] as f64;
+    // local copies of the table window (constant indices): the symbolic lookup is over SPAN entries only
+    let mut tf = [0u64; SPAN];
+    let mut tc = [0u64; SPAN];
+    let mut i = 0;
+    while i < SPAN {
+        tf[i] = LOG2_FLOOR[lo as usize + i];
+        tc[i] = LOG2_CEIL[lo as usize + i];
+        i += 1;
+    }
+    let f = tf[(n - lo) as usize] as f64;
+    let c = tc[(n - lo) as usize] as f64;
     assert!((lb as f64) * TWO40 <= f, "lower bound exceeds log2(n)");
     assert!((ub as f64) * TWO40 >= c, "upper bound below log2(n)");
     // and the bounds are useful: within 1/64 of each other
@@ -94,19 +103,23 @@ pub fn log2_zero() {
 /// u32 / u64: the 16-bit-prefix reduction (h = top 16 bits, s = shift): the returned bounds must
 /// enclose a rigorous enclosure of log2 n derived from the exact table entry of h (necessary
 /// conditions, tight to ~2^-34: never a false alarm, and a bound that misses log2 n by more is caught).
-pub fn log2_wide(is64: bool, hlo: u64, hhi: u64) {
+pub fn log2_wide<const SPAN: usize, const SPAN1: usize>(is64: bool, hlo: usize) {
     let n: u64 = if is64 { nd::any() } else { nd::any::<u32>() as u64 };
     nd::assume(n > 0xffff);
-    {
-        // window on the 16-bit prefix (keeps the table lookups small)
-        let b = 64 - n.leading_zeros();
-        let hh = n >> (b - 16);
-        nd::assume(hh >= hlo && hh <= hhi);
-    }
     let (lb, ub) = if is64 { n.log2_bounds() } else { (n as u32).log2_bounds() };
     let bits = 64 - n.leading_zeros();
     let s = bits - 16;
     let h = (n >> s) as usize;
+    // window on the 16-bit prefix, with local copies of the table window (SPAN1 = SPAN + 1 entries)
+    nd::assume(h >= hlo && h < hlo + SPAN);
+    let mut tf = [0u64; SPAN1];
+    let mut tc = [0u64; SPAN1];
+    let mut i = 0;
+    while i < SPAN1 {
+        tf[i] = if hlo + i < 65536 { LOG2_FLOOR[hlo + i] } else { 16 << 40 };
+        tc[i] = if hlo + i < 65536 { LOG2_CEIL[hlo + i] } else { 16 << 40 };
+        i += 1;
+    }
     if n.is_power_of_two() {
         assert!(lb == (bits - 1) as f32 && ub == lb);
         return;
@@ -117,8 +130,8 @@ pub fn log2_wide(is64: bool, hlo: u64, hhi: u64) {
     let j = n - ((h as u64) << s);
     let x = (j as f64) / (((h as u64) << s) as f64);
     let slack = 64.0; // f64 rounding of the few operations above, in units of 2^-40
-    let lower = LOG2_FLOOR[h] as f64 + base + x * TWO40 - slack; // <= 2^40 log2 n
-    let upper = LOG2_CEIL[h] as f64 + base + x * 1.4427 * TWO40 + slack; // >= 2^40 log2 n
+    let lower = tf[h - hlo] as f64 + base + x * TWO40 - slack; // <= 2^40 log2 n
+    let upper = tc[h - hlo] as f64 + base + x * 1.4427 * TWO40 + slack; // >= 2^40 log2 n
     assert!((ub as f64) * TWO40 >= lower, "upper bound below log2(n)");
     assert!((lb as f64) * TWO40 <= upper, "lower bound exceeds log2(n)");
     assert!(ub - lb <= 0.03125);
@@ -211,6 +224,35 @@ pub fn sqrt_small(bits: u32, which: u8) {
     assert!(s2 * s2 <= n2 && n2 < (s2 + 1) * (s2 + 1));
     if let Some(r) = r {
         assert!(r as u128 == n2 - s2 * s2);
+    }
+}
+
+/// cube root of a small negative IBig (|x| < 8: the bit-length shortcut answers, the Newton loop is never
+/// entered, so a small unwind bound suffices): -1, never a panic
+pub fn cbrt_tiny(s: Sign) {
+    let v: Word = nd::any();
+    nd::assume(v != 0 && v < 8);
+    let x = ibig(s, &[v]);
+    let r = x.cbrt();
+    let (rs, rw) = r.as_sign_words();
+    assert!(rw.len() == 1 && rw[0] == 1 && rs == s);
+    let r3 = x.nth_root(3);
+    let (r3s, r3w) = r3.as_sign_words();
+    assert!(r3w.len() == 1 && r3w[0] == 1 && r3s == s);
+}
+
+/// cube roots of a few literal values of either sign (the symbolic versions run out of memory because the
+/// Newton start value is `1 << (bit_len / n)`, a shift by a symbolic amount): value and sign, no panic
+pub fn cbrt_literals() {
+    let cases: [(i64, i64); 8] = [(-1, -1), (-7, -1), (-8, -2), (-9, -2), (-27, -3), (-1000, -10), (8, 2), (26, 2)];
+    let mut i = 0;
+    while i < cases.len() {
+        let (v, want) = cases[i];
+        let x = ibig(if v < 0 { NEG } else { POS }, &[v.unsigned_abs() as Word]);
+        let r = x.cbrt();
+        let (rs, rw) = r.as_sign_words();
+        assert!(rw.len() == 1 && rw[0] == want.unsigned_abs() as Word && (rs == NEG) == (want < 0));
+        i += 1;
     }
 }
 
